@@ -268,6 +268,10 @@ def m_int(ctx, interp, args, kwargs):
         # anything else is outside the model
         dig = z3.InRe(v.term, z3.Plus(z3.Range("0", "9")))
         if ctx.branch(dig):
+            if getattr(ctx, "opts", {}).get("int_str_limit") and ops.INT_STR_LIMIT:
+                # CPython >= 3.11: int(str) refuses more than sys.get_int_max_str_digits() digits
+                if ctx.branch(z3.Length(v.term) > ops.INT_STR_LIMIT):
+                    raise SymRaise(ValueError("Exceeds the limit (%d digits) for integer string conversion" % ops.INT_STR_LIMIT))
             return SInt(z3.StrToInt(v.term))
         from vf.lexsym import rx as _rx
         udig = z3.InRe(v.term, z3.Plus(_rx.z3_set(_rx.category("digit"))))
